@@ -6,7 +6,8 @@ import PercevalModel.Model.C14
 
   {"op":"bs","conv":"Rx|Ry|H","h":[c,s],"tl":[c,s],"bl":[c,s],"tr":[c,s],"br":[c,s]}
   {"op":"ps","phi":[c,s]}   {"op":"wp","d":[c,s],"x":[c,s]}   {"op":"pr","d":[c,s]}
-      (c,s) = exact rational (cos,sin); rejected unless c²+s²=1
+      (c,s) = exact rational (cos,sin); rejected unless c²+s²=1; an angle may also be {"raw":[c,s]}
+      (doubles as dyadic rationals, no unit-circle check; "unitary" is then meaningless)
       -> {"U":rows (numeric branch),"sym":numeric branch = symbolic branch,"unitary":bool}
   {"op":"wrap","periodic":b,"lo":q|null,"hi":q|null,"v":q}
       -> {"exact":q|null,"fix64":q|null,"cur64":q|null}      (null = ValueError)
@@ -18,12 +19,19 @@ import PercevalModel.Model.C14
 
 open Lean PM PM.Proto PM.C14
 
+/-- `[c,s]`: exact point of the unit circle (rejected otherwise); `{"raw":[c,s]}`: the pair of doubles
+`(math.cos x, math.sin x)` the implementation holds, taken as the dyadic rationals they are (the model
+is polynomial in `c, s`, so it is evaluated exactly on these numbers; no unit-circle check). -/
 def angOf (j : Json) (k : String) : Except String (Ang GQ) := do
   match ← j.getObjVal? k with
   | .arr #[a, b] =>
     let c ← ratOfJson a
     let s ← ratOfJson b
     if c * c + s * s ≠ 1 then throw "not-unit" else return ⟨⟨c, 0⟩, ⟨s, 0⟩⟩
+  | v@(.obj _) =>
+    match v.getObjVal? "raw" with
+    | .ok (.arr #[a, b]) => return ⟨⟨← ratOfJson a, 0⟩, ⟨← ratOfJson b, 0⟩⟩
+    | _ => throw "expected {raw:[cos,sin]}"
   | _ => throw "expected [cos,sin]"
 
 def convOf (s : String) : Except String Conv :=
